@@ -126,13 +126,29 @@ def _spec(form: str):
     rates = [0.031, 0.032, 0.033, 0.034, 0.035]
     if form == 'list-params':
         codes = [[3, 5], [4, 6]]
-        noises = [[0.11, 0.21, 0.31], [0.12, 0.22, 0.32], [0.13, 0.23, 0.33]]
+        noises = [[0.11, 0.21, 0.31], [0.12, 0.22, 0.32, 'XZZX'], [0.13, 0.23, 0.33, 'XY', {'deformation_axis': 'x'}]]
     rng = {'label': 'L', 'code': {'name': 'Toric2DCode', 'parameters': codes},
            'error_model': {'name': 'PauliErrorModel', 'parameters': noises},
            'decoder': {'name': 'MatchingDecoder', 'parameters': decs},
            'error_rate': rates}
     want = [(_freeze(c), _freeze(n), _freeze(d), p) for c in codes for n in noises for d in decs for p in rates]
     return rng, want
+
+
+def _want_bound(model, want):
+    """expected product elements with list-form parameters bound to constructor parameter names"""
+    out = []
+    for c, n, d, p in want:
+        cb = _bound(model, ('Toric2DCode', list(c), {})) if not (c and isinstance(c[0], tuple)) else dict(c)
+        nb = _bound(model, ('PauliErrorModel', [_thaw(x) for x in n], {})) if not (n and isinstance(n[0], tuple) and len(n[0]) == 2 and isinstance(n[0][0], str)) else dict(n)
+        out.append(('Toric2DCode', _freeze(cb), _freeze(nb), d, p))
+    return out
+
+
+def _thaw(x):
+    if isinstance(x, tuple) and x and all(isinstance(e, tuple) and len(e) == 2 and isinstance(e[0], str) for e in x):
+        return {k: _thaw(v) for k, v in x}
+    return x
 
 
 def _freeze(x):
@@ -153,11 +169,33 @@ class _HSim(Hooks):
             return o
         if isinstance(func, Ext) and func.name == 'itertools.product':
             return list(itertools.product(*[list(a) for a in args]))
+        if isinstance(func, Ext) and func.name in ('json.dumps', 'builtins.repr', 'builtins.str', 'builtins.hash') \
+                and args and not kwargs.get('cls'):
+            import json as _json
+            try:
+                if func.name == 'json.dumps':
+                    return _json.dumps(args[0], **{k: v for k, v in kwargs.items() if k in ('sort_keys', 'indent')})
+            except (TypeError, ValueError):
+                return TOP
         return NOT_HANDLED
 
 
 def _ctor(o):
     return o.fields['_ctor'] if isinstance(o, Obj) and '_ctor' in o.fields else None
+
+
+def _bound(model, c):
+    """Constructor call (class name, args, kwargs) -> {parameter name: value} using the class's __init__
+    signature, so that positional and keyword forms of the same call compare equal."""
+    name, args, kwargs = c
+    ci = model.cls(name)
+    r = ci.find_method('__init__')
+    names = [a.arg for a in r[1].args.args][1:] if r else []
+    b = {}
+    for i, v in enumerate(args):
+        b[names[i] if i < len(names) else f'*{i}'] = v
+    b.update(kwargs)
+    return b
 
 
 def _r132(ctx: Ctx) -> None:
@@ -219,14 +257,14 @@ def _r132(ctx: Ctx) -> None:
             if not (cc and ec and dc):
                 problems.append(f'simulation built from {code!r}, {em!r}, {dec!r}')
                 continue
-            if cc[0] != 'Toric2DCode' or ec[0] != 'PauliErrorModel' or dc[0] != 'MatchingDecoder':
+            if ec[0] != 'PauliErrorModel' or dc[0] != 'MatchingDecoder':
                 problems.append(f'classes {cc[0]}, {ec[0]}, {dc[0]} do not match the requested names')
             dk = dict(dc[2])
             if dk.get('code') is not code or dk.get('error_model') is not em or dk.get('error_rate') != rate:
                 problems.append(f'decoder built with code/noise/rate {dk.get("code")!r}/{dk.get("error_model")!r}/'
                                 f'{dk.get("error_rate")!r} that differ from its simulation\'s')
             dparams = {k: v for k, v in dk.items() if k not in ('code', 'error_model', 'error_rate')}
-            out.append((_freeze(cc[1] or cc[2]), _freeze(ec[1] or ec[2]), _freeze(dparams), rate))
+            out.append((cc[0], _freeze(_bound(m, cc)), _freeze(_bound(m, ec)), _freeze(dparams), rate))
         return out, problems
 
     for form, build in (
@@ -242,19 +280,22 @@ def _r132(ctx: Ctx) -> None:
             got = None
             if ok:
                 got, problems = describe(o.value)
-                ok = not problems and sorted(map(repr, got)) == sorted(map(repr, want * mult))
+                wb = _want_bound(m, want)
+                ok = not problems and sorted(map(repr, got)) == sorted(map(repr, wb * mult))
+                miss = [w for w in map(repr, wb) if w not in set(map(repr, got))]
                 detail = '; '.join(problems[:2]) or (f'{len(got)} simulations ({len(set(map(repr, got)))} distinct), '
-                                                     f'expected {len(want) * mult}; first: {got[:2]!r}')
+                                                     f'expected {len(want) * mult}; first requested combination not '
+                                                     f'built as requested: {miss[:1]}')
             ctx.ob('R13.2', site_of(mi, fn_get), f'get_simulations: one simulation per product element ({form}, {pform})',
                    ok, detail, key=f'get_simulations|{form}|{pform}',
                    facts={'simulations': len(got) if got else 0})
     # explicit runs
-    runs = [{'code': {'name': 'Toric2DCode', 'parameters': {'L_x': 3 + i}},
+    runs = [{'code': {'name': ('Toric2DCode', 'Planar2DCode', 'Toric2DCode')[i], 'parameters': {'L_x': 3 + (i == 2)}},
              'error_model': {'name': 'PauliErrorModel', 'parameters': {'r_x': 0.1 + i}},
              'decoder': {'name': 'MatchingDecoder', 'parameters': {'osd_order': 20 + i}},
              'error_rate': 0.03 + i} for i in range(3)]
-    want = [(_freeze({'L_x': 3 + i}), _freeze({'r_x': 0.1 + i}), _freeze({'osd_order': 20 + i}), 0.03 + i)
-            for i in range(3)]
+    want = [(('Toric2DCode', 'Planar2DCode', 'Toric2DCode')[i], _freeze({'L_x': 3 + (i == 2)}), _freeze({'r_x': 0.1 + i}),
+             _freeze({'osd_order': 20 + i}), 0.03 + i) for i in range(3)]
     o = sims_of({'runs': runs})
     ok = o.kind == 'return' and isinstance(o.value, list)
     detail = f'{o!r}'
